@@ -229,7 +229,7 @@ func firstByte(ps *PrintState, node Node, precedence Priority) byte {
 		return firstByte(ps, n.Function, CALL)
 	case *FunctionLiteral:
 		if n.IsLambda {
-			if len(n.Parameters) != 1 || precedence >= LAMBDA {
+			if len(n.Parameters) != 1 || precedence > LAMBDA {
 				return '('
 			}
 			return firstByte(ps, n.Parameters[0], LOWEST)
@@ -545,7 +545,7 @@ type FunctionLiteral struct {
 
 func (fl FunctionLiteral) lambdaPrint(out *PrintState) *PrintState {
 	// A lambda used as an operand (or called, indexed...) must keep its parentheses: !(x=>x) isn't !x=>x.
-	wrap := out.ExpressionPrecedence >= LAMBDA
+	wrap := out.ExpressionPrecedence > LAMBDA
 	if wrap {
 		out.Print("(")
 	}
@@ -682,14 +682,20 @@ func (hl MapLiteral) PrettyPrint(out *PrintState) *PrintState {
 	if out.Compact {
 		sep = ","
 	}
+	oldPrecedence := out.ExpressionPrecedence
 	for i, key := range hl.Order {
 		if i > 0 {
 			out.Print(sep)
 		}
+		// key:value is parsed as the `:` operator: operands binding less than it need their parentheses
+		// ({a:(b=1)} isn't {a:b=1}, {(a||b):1} isn't {a||b:1}).
+		out.ExpressionPrecedence = Precedences[token.COLON]
 		key.PrettyPrint(out)
 		out.Print(":")
+		out.ExpressionPrecedence = Precedences[token.COLON] + 1
 		hl.Pairs[key].PrettyPrint(out)
 	}
+	out.ExpressionPrecedence = oldPrecedence
 	out.Print("}")
 	return out
 }
